@@ -100,6 +100,11 @@ def lowerBinop (op : String) (t : CTy) : String × String := (op, irType t)
 /-- gen_cond_code: `ir.CJump(lhs, expr.op, rhs, bbtrue, bbfalse)` — (IR condition, type of the operands) -/
 def lowerCmp (op : String) (t : CTy) : String × String := (op, irType t)
 
+/-- gen_cond_code: `lhs = code of expr.a`, `rhs = code of expr.b`, `ir.CJump(lhs, expr.op, rhs, …)` — the operands
+    stay in source order whatever they are (a constant on the left stays on the left) and the condition is the
+    operator itself: (IR condition, first operand is an `ir.Const`, second operand is an `ir.Const`) -/
+def lowerCmpOperands (op : String) (leftConst rightConst : Bool) : String × Bool × Bool := (op, leftConst, rightConst)
+
 /-- Assignment.shorthand_operator: `operator[:-1]` -/
 def shorthandOp (assignOp : String) : String :=
   match assignOp with
